@@ -25,12 +25,21 @@ Fixpoint render (t : tmpl) (data : list (string * node)) : string :=
   | PVar k :: r => (render_var k data ++ render r data)%string
   end.
 
-(* conditions: absent | a constant | {{ eq .k "s" }} on a string leaf | text that is not a boolean *)
-Inductive cond := CNone | CConst (b : bool) | CEq (k s : string) | CLt (k : string) (n : Z) | CBad.
+(* templateEngine.EvalBool: strconv.ParseBool(strings.TrimSpace(rendered)) — exactly twelve spellings *)
+Definition parse_bool (s : string) : option bool :=
+  if existsb (String.eqb s) ["1"; "t"; "T"; "TRUE"; "true"; "True"]%string then Some true
+  else if existsb (String.eqb s) ["0"; "f"; "F"; "FALSE"; "false"; "False"]%string then Some false
+  else None.
+Definition trim_space (s : string) : string := sl (trim_with is_space (la s)).
+
+(* conditions: absent | a constant | {{ eq .k "s" }} on a string leaf | literal text (no template
+   action): any spelling of a boolean, or something that is not one *)
+Inductive cond := CNone | CConst (b : bool) | CEq (k s : string) | CLt (k : string) (n : Z) | CBad | CText (s : string).
 Definition eval_cond (c : cond) (data : list (string * node)) : option bool :=
   match c with
   | CNone => Some true
   | CConst b => Some b
+  | CText s => parse_bool (trim_space s)
   | CEq k s => match kv_get k data with
                | Some (Leaf (SStr x)) => Some (String.eqb x s)
                | _ => None                                  (* eq on a missing/non-string value: error *)
